@@ -250,6 +250,19 @@ Theorem sender_chunks_replay_to_source :
 Proof. exact sender_replay_proved. Qed.
 Print Assumptions sender_chunks_replay_to_source.
 
+(* the witness snapshot chunk (getWitnessChunk): one chunk that is by itself a complete
+   in-order stream of one sender, without file info (so the validator sees it), marked
+   witness, and that writes one file named witness_snapshot_filename holding the data - the
+   receiver theorems above therefore apply to it as to any other stream *)
+Theorem witness_chunk_is_complete_stream :
+  forall D (dapp : D -> D -> D) dlen msg did (data : D),
+    let c := witness_chunk D dlen msg did data in
+    ids_from D 0 [c] /\ same_stream D did (fst c) [c] /\ last_only D [c] /\
+    c_hasfi (fst c) = false /\ c_witness (fst c) = true /\
+    replay D dapp [] [c] = Some [(witness_snapshot_filename, data)].
+Proof. exact witness_chunk_complete. Qed.
+Print Assumptions witness_chunk_is_complete_stream.
+
 Theorem bytes_slicing_law :
   (forall (f : bytes) a n m, a + n + m <= nlen f -> bytes_sub f a n ++ bytes_sub f (a + n) m = bytes_sub f a (n + m)) /\
   (forall f : bytes, bytes_sub f 0 (nlen f) = f).
